@@ -242,11 +242,18 @@ def build_c(unit, units, outdir, defines=()):
         # a base-class method called on `this`: the contract of the base unit is used VERBATIM (same text, same prelude), only the
         # self struct is the derived one -- inherited members have the same names, so the clauses mean the same thing
         units = dict(units)
-        for b_ in unit['base_uses']:
+        todo_ = list(unit['base_uses'])
+        while todo_:
+            b_ = todo_.pop()
             if b_ not in units:
                 raise specmod.SpecError('unit %s base_uses unknown unit %s' % (unit['name'], b_))
             u2 = dict(units[b_])
             u2['self'] = unit['self']
+            if u2.get('base_uses'):
+                # the base unit has a base of its own (two levels of inheritance): its contract text needs that unit's prelude, types
+                # and members as well, on the same derived self struct
+                u2['uses'] = list(u2.get('uses', [])) + [x_ for x_ in u2['base_uses'] if x_ not in u2.get('uses', [])]
+                todo_.extend(u2['base_uses'])
             units[b_] = u2
         unit = dict(unit)
         unit['uses'] = list(unit.get('uses', [])) + [b_ for b_ in unit['base_uses'] if b_ not in unit.get('uses', [])]
